@@ -1116,6 +1116,8 @@ def pstr_boundary_cases(prefix_id, thorough):
     cid = 0
     sizes = [(1, n) for n in (0, 1, 2, 255, 256, 257, 258, 300)]
     sizes += [(2, n) for n in (0, 1, 2, 3, 4)]
+    # two-byte prefix: payload lengths whose low or high length byte is zero, and around one byte's worth
+    sizes += [(2, 2 + n) for n in (255, 256, 257, 511, 512, 513, 768, 4096, 65280, 65281)]
     sizes += [(2, n) for n in ((65536, 65537, 65538, 65539, 65540) if thorough else (65537, 65538, 65539))]
     # sources longer than the prefix type can count, into small and large payloads
     for p, srclens in ((1, (255, 256, 257, 300, 511, 512, 513)), (2, (65535, 65536, 65537, 65546))):
